@@ -198,6 +198,8 @@ func implC16(line string) string {
 		return implField(f)
 	case "view":
 		return implView(f)
+	case "recs":
+		return implRecs(f)
 	}
 	return "bad-op"
 }
@@ -377,6 +379,10 @@ func genC16(c *h.Ctx) {
 	}
 	for i := 0; i < c.N(3000, 80000); i++ {
 		c.Add(g.structHistory(), "hist:struct")
+	}
+	// distinct struct types that print the same, in one process and one or several runtimes
+	for i := 0; i < c.N(1500, 30000); i++ {
+		c.Add(g.recsRequest(), "recs")
 	}
 	// observers of bridged containers and bridged values in argument positions of built-ins
 	for i := 0; i < c.N(4000, 60000); i++ {
